@@ -11,6 +11,14 @@ import cases as K
 from cases import case, with_sizes
 
 
+def budget_ms(n, m, p4="sink"):
+    """the spec's BudgetMs (AutogApi.tla), used as the driver's per-case watchdog"""
+    sz = n + m
+    if p4 == "nspos":
+        return 2000 + ((sz * sz) // 200) * sz * sz if sz <= 300 else 2000000000
+    return 2000 + ((sz * sz) // 100) * sz
+
+
 def grid(**axes):
     keys = list(axes)
     return [dict(zip(keys, vals)) for vals in itertools.product(*[axes[k] for k in keys])]
@@ -40,7 +48,15 @@ def apply(n, edges, combo):
             c[k] = v
     if size_mode:
         c = with_sizes(c, size_mode, combo.get("pat", "het"))
+    # the network-simplex positioner needs seconds to minutes beyond a few dozen nodes and edges (documented,
+    # measured in DESIGN.md section 12): the families use it up to NSPOS_MAX nodes+edges and SinkColoring beyond
+    if c["p4"] == "nspos" and n + len(edges) > NSPOS_MAX:
+        c["p4"] = "sink"
+    c["budgetms"] = budget_ms(n, len(edges), c["p4"])
     return c
+
+
+NSPOS_MAX = 36
 
 
 def random_inputs(rng, count, nmin, nmax, **kw):
@@ -147,7 +163,118 @@ def c16_cases(tier, rng):
         yield apply(n, e, cb)
 
 
+def c11_cases(tier, rng):
+    combos = grid(p1=K.P1S, p2=["lp"], p4=["valign", "sink"], p5=["straight"], size=["all", "none"], ls=[3])
+    inputs = [(n, e) for n, e, r in K.family(fam_E(tier))]
+    for (n, e), cb in rotate(inputs, combos, 4 if tier == "quick" else 6, rng):
+        yield apply(n, e, cb)
+    rnd = random_inputs(rng, 2000 if tier == "quick" else 30000, 4, 30, density=1.5) + \
+        random_inputs(rng, 1000 if tier == "quick" else 20000, 5, 30, acyclic=True, connected=True, loop_rate=0)
+    for (n, e), cb in rotate(rnd, combos, 1, rng):
+        yield apply(n, e, cb)
+
+
+def c10_cases(tier, rng):
+    combos = grid(p1=K.P1S, p2=["ns"], p4=["valign"], p5=["straight"], size=["all", "none"], ls=[3], thor=[-1, 1, 4], cert=[1])
+    inputs = [(n, e) for n, e, r in K.family(fam_E(tier))]
+    for (n, e), cb in rotate(inputs, combos, 3 if tier == "quick" else 4, rng):
+        yield apply(n, e, cb)
+    simple = [(n, e) for n, e, r in K.family("S56") if r["n"] == 5 and len(r["e"]) >= 5]
+    rng.shuffle(simple)
+    for (n, e), cb in rotate(simple[:3000 if tier == "quick" else 40000], combos, 1, rng):
+        yield apply(n, e, cb)
+    nr = 2500 if tier == "quick" else 40000
+    rnd = random_inputs(rng, nr, 5, 12, density=1.5, connected=True, acyclic=True, loop_rate=0) + \
+        random_inputs(rng, nr, 6, 40, density=1.4) + \
+        [K.bipartite(a, b) for a in range(2, 6) for b in range(2, 6)] + [K.grid(w, h) for w in range(2, 6) for h in range(2, 6)]
+    for (n, e), cb in rotate(rnd, combos, 1, rng):
+        yield apply(n, e, cb)
+
+
+NAME_STYLES = {
+    "plain": None,
+    "helper": lambda n: (["V1", "NE0", "V2", "NE1", "NE2", "V3", "NE3", "NE4", "V4", "NE5"] + ["V%d" % i for i in range(5, 60)])[:n],
+    "weird": lambda n: (["", "x" * 300, "\u30ce\u30fc\u30c9", "a b", "\"q\"", "tab\t", "\u0000z", "\U0001F600"] + ["w%d" % i for i in range(60)])[:n],
+}
+
+
+def c01_cases(tier, rng):
+    axes = dict(p1=["greedy", "greedyrand", "dfs"], p2=K.P2S, p4=K.P4_ALL, p5=["poly", "straight", "ortho", "noop", "splines"],
+                size=["none", "fixed", "all", "some", "nomap"], pat=["het", "het2", "wide1", "odd"], ns=[0, 1, 10], ls=[0, 1, 10],
+                thor=[0, 1, -1], virt=[0, 1], names=["plain", "helper", "weird"])
+
+    def combo():
+        cb = {k: rng.choice(v) for k, v in axes.items()}
+        if cb["p5"] == "splines" and rng.random() < 0.8:
+            cb["p5"] = rng.choice(["poly", "straight", "ortho"])   # the spline router aborts often (known findings): smaller share
+        return cb
+
+    def mk(n, e, cb):
+        cb = dict(cb)
+        style = cb.pop("names")
+        c = apply(n, e, cb)
+        if NAME_STYLES[style]:
+            c["names"] = NAME_STYLES[style](n)
+        c["seed"] = rng.randrange(1 << 30)
+        c["budgetms"] = budget_ms(n, len(e), c["p4"])
+        return c
+    inputs = [(n, e) for n, e, _ in K.family(fam_E(tier))]
+    for n, e in inputs:
+        for _ in range(3 if tier == "quick" else 4):
+            yield mk(n, e, combo())
+    for n, e in random_inputs(rng, 2500 if tier == "quick" else 40000, 5, 40, density=1.4):
+        yield mk(n, e, combo())
+    # size sweeps: long chains (recursion depth), ladders with more than 64 layers, wide layers, larger random graphs
+    big = [K.chain(n) for n in ((200, 1000) if tier == "quick" else (200, 1000, 3000))]
+    big += [K.ladder(L, w) for L, w in (((70, 2), (66, 3)) if tier == "quick" else ((70, 2), (66, 3), (100, 3), (130, 2)))]
+    big += [K.bipartite(a, b) for a, b in ((6, 6), (3, 12))] + [K.grid(5, 5), K.binary_tree(6, "out"), K.binary_tree(6, "in")]
+    big += [K.random_multigraph(rng, n, n, density=1.2) for n in ((60, 90) if tier == "quick" else (60, 90, 120, 150))]
+    for n, e in big:
+        for p4 in (["sink", "bk"] if tier == "quick" else ["sink", "bk", "valign", "pack"]):
+            cb = combo()
+            cb.update(p4=p4, p5="poly", thor=-1, names="plain", p1=rng.choice(["greedy", "dfs"]))
+            yield mk(n, e, cb)
+
+
+def c12_cases(tier, rng):
+    combos = grid(p1=K.P1S, p2=K.P2S, p4=K.P4_SIZE_AWARE, p5=["poly"], size=["all", "fixed", "none"], pat=["het", "odd"], ns=[1, 5], mon=[1])
+    simple = [(n, e) for n, e, r in K.family("S56") if len(r["e"]) >= 5]
+    rng.shuffle(simple)
+    for (n, e), cb in rotate(simple[:6000 if tier == "quick" else 60000], combos, 1, rng):
+        yield apply(n, e, cb)
+    rnd = random_inputs(rng, 2500 if tier == "quick" else 30000, 6, 30, density=1.5, simple=True, loop_rate=0)
+    rnd += [K.bipartite(a, b) for a in range(2, 7) for b in range(2, 7)]
+    for (n, e), cb in rotate(rnd, combos, 1, rng):
+        yield apply(n, e, cb)
+    # more than 64 layers, at least two nodes per layer, twisted rungs (forces crossings in the high layers)
+    tall = [K.ladder(L, w) for L, w in (((66, 2), (70, 2)) if tier == "quick" else ((66, 2), (70, 2), (70, 3), (100, 2), (130, 3)))]
+    for n, e in tall:
+        for p2 in K.P2S:
+            for p4 in (["valign", "sink"] if tier == "quick" else K.P4_SIZE_AWARE):
+                c = apply(n, e, dict(p1="dfs", p2=p2, p4=p4, p5="poly", size="fixed", ns=2, mon=1))
+                yield c
+
+
+def c13_cases(tier, rng):
+    combos = grid(p1=K.P1S, p2=K.P2S, p4=K.P4_SIZE_AWARE, p5=["poly"], size=["all", "fixed", "none"], pat=["het", "odd"], ns=[1, 5])
+    trees = [(n, e) for f in (("T4", "T5", "T6")) for n, e, r in K.family(f)]
+    for (n, e), cb in rotate(trees, combos, 3 if tier == "quick" else 12, rng):
+        yield apply(n, e, cb)
+    rnd = []
+    for _ in range(1200 if tier == "quick" else 15000):
+        rnd.append(K.random_tree(rng, rng.randint(7, 60), rng.choice(["out", "in"])))
+    for d in ("out", "in"):
+        rnd += [K.caterpillar(n, d) for n in (10, 25, 60)] + [K.binary_tree(k, d) for k in (3, 4, 5, 6)]
+    for (n, e), cb in rotate(rnd, combos, 1 if tier == "quick" else 2, rng):
+        yield apply(n, e, cb)
+
+
 RULES = {
+    "C12": "simple graphs: S(5,6) lists with >= 5 edges (TLC-generated, sampled in quick), random simple graphs of 6-30 nodes, complete bipartite graphs, and twisted ladders with 66-130 layers (layer indices >= 64) x both layerers x size-aware positioners x Polyline, with a recording monitor; TLC recounts the crossings of the returned drawing per pair of adjacent bands (strict inversions of segment end points) and compares with the sum of the reported 'crossings' events; judged when every polyline has one point per band it touches; non-trivial = reported count > 0",
+    "C13": "every rooted tree on 4-6 nodes (parent functions) in both orientations and every edge order (TLC-generated T4,T5,T6, canonical form), random recursive trees of 7-60 nodes with shuffled edge lists, caterpillars, complete binary trees x both breakers x both layerers x size-aware positioners x Polyline; TLC counts the crossings of the drawing; non-trivial = a node of degree >= 3 and n >= 4",
+    "C01": "E(4,4)/E(4,5) x 3-4 random points of the full option grid (3 breakers incl. seeded random greedy x 2 layerers x 9 positioners x 5 routers x 5 size modes x 4 size patterns x NodeSpacing/LayerSpacing {0,1,10} x thoroughness {0,1,default} x virtual-node output x node-ID alphabets {plain, helper-like V<k>/NE<k>, empty/300-char/Unicode/control}), random multigraphs of 5-40 nodes, and size sweeps (chains up to 1000/3000 nodes, ladders with 66-130 layers, bipartite, grid, binary trees, random graphs up to 90/150 nodes); each case runs in an isolated worker with a wall-clock budget equal to the spec's BudgetMs and a heap budget; non-trivial = >= 2 nodes and a non-loop edge",
+    "C10": "E(4,4)/E(4,5), 5-node simple lists of S(5,6), random connected DAGs (5-12 nodes), random multigraphs (6-40 nodes), complete bipartite and grid DAGs x both breakers x NetworkSimplex x thoroughness {default,1,4}; the optimum is MinTotalSpan (brute force in TLC) for n <= 5 and an LP-duality certificate checked in TLC (CertOK) beyond; runs that ended on the iteration cap (hook) are not judged; non-trivial = at least one pivot executed",
+    "C11": "E(4,4)/E(4,5) x both breakers x LongestPath x two positioners, plus random multigraphs and random connected DAGs up to 30 nodes; band-from-bottom of every node compared by TLC with the longest path to a sink (GraphOps!HeightToSink) in the drawn orientation; non-trivial = a component with >= 3 nodes and >= 2 bands",
     "C02": "inputs: every canonical multigraph edge list of E(4,4) (quick) / E(4,5) (thorough) generated by TLC from Inputs.tla x rotating option grid (breakers x layerers x positioners x routers x size options x virtual-node output), plus seeded random multigraphs of 4-14 nodes; distinct by canonical list x options; non-trivial = input has a cycle, a self-loop, a parallel/antiparallel pair, or a routed edge with bends",
     "C03": "E(4,4)/E(4,5) x breakers x layerers x 5 positioners x heterogeneous heights x LayerSpacing {1,10}, plus random multigraphs and random connected DAGs up to 30 nodes; non-trivial = some component has >= 2 bands",
     "C04": "E(4,4)/E(4,5) x breakers x layerers x the four size-aware positioners x four width/height patterns (zero sizes, one very wide node, odd widths) x NodeSpacing {0,1,10}, plus random multigraphs up to 30 nodes; non-trivial = >= 2 components or two nodes in one band",
@@ -165,7 +292,7 @@ ASSUME = [
 
 FAMILIES = {
     "C02": c02_cases, "C03": c03_cases, "C04": c04_cases, "C05": c05_cases, "C06": c06_cases,
-    "C14": c14_cases, "C16": c16_cases,
+    "C14": c14_cases, "C16": c16_cases, "C11": c11_cases, "C10": c10_cases, "C01": c01_cases, "C12": c12_cases, "C13": c13_cases,
 }
 
 
@@ -183,7 +310,17 @@ def run_unary(prop, tier, seed, replay):
             rng = random.Random(seed * 7919 + int(prop[1:]))
             dd = K.Dedup()
             cs = [c for c in FAMILIES[prop](tier, rng) if dd.fresh(c)]
-        res = engine.run_layout_cases(work, driver, [prop], cs)
+        if prop == "C01":
+            # small inputs with a tight heap budget (a runaway allocation is caught in a fraction of a second),
+            # the size sweeps with a large one
+            small = [c for c in cs if c["n"] + len(c["edges"]) <= 120]
+            big = [c for c in cs if c["n"] + len(c["edges"]) > 120]
+            res = engine.run_layout_cases(work, driver, [prop], small, mem_mb=256)
+            if big:
+                res2 = engine.run_layout_cases(work, driver, [prop], big, tag="big", mem_mb=2000, nshards=min(16, len(big)))
+                res = engine.merge_results(res, res2)
+        else:
+            res = engine.run_layout_cases(work, driver, [prop], cs)
         return engine.report(prop, res, known, tier, seed, {"exhaustive_family": fam_E(tier)}, ASSUME, t0, RULES[prop])
     finally:
         work.cleanup()
